@@ -580,7 +580,53 @@ func aritySkipNodes(exprs []*lisp.LVal) map[*lisp.LVal]bool {
 			markLocallyShadowedCalls(sexpr, binds, funBinding, skip)
 		}
 	})
+	for _, expr := range exprs {
+		markQuotedData(expr, skip)
+	}
 	return skip
+}
+
+// markQuotedData adds to skip every list that is quoted data: the lists
+// nested inside a quoted list, and the operand of (quote ...) with everything
+// inside it.  The evaluator returns a quoted value without looking at its
+// elements, so '((car) (cdr 1 2)) calls nothing.
+//
+// A quoted list that is already in skip is a piece of syntax -- a bracketed
+// binding list or entry such as [x (car y)], a cond clause -- whose elements
+// ARE evaluated, so the walk continues into it normally.  Quasiquote templates
+// are left alone, as Walk leaves them alone.
+func markQuotedData(node *lisp.LVal, skip map[*lisp.LVal]bool) {
+	if node == nil || node.Type != lisp.LSExpr {
+		return
+	}
+	head := HeadSymbol(node)
+	switch {
+	case !node.IsQuoted() && head == "quasiquote":
+		return
+	case !node.IsQuoted() && head == "quote":
+		for _, child := range node.Cells[1:] {
+			markAllData(child, skip)
+		}
+		return
+	case node.IsQuoted() && !skip[node]:
+		for _, child := range node.Cells {
+			markAllData(child, skip)
+		}
+		return
+	}
+	for _, child := range node.Cells {
+		markQuotedData(child, skip)
+	}
+}
+
+func markAllData(node *lisp.LVal, skip map[*lisp.LVal]bool) {
+	if node == nil || node.Type != lisp.LSExpr {
+		return
+	}
+	skip[node] = true
+	for _, child := range node.Cells {
+		markAllData(child, skip)
+	}
 }
 
 // aritySpec defines the min/max argument count for a function.
